@@ -43,21 +43,21 @@ type Def struct {
 
 // Graph is a function's CFG with AST position maps and reaching definitions.
 type Graph struct {
-	Fn      *Fn
-	CFG     *cfg.CFG
-	Blocks  []*cfg.Block
-	where   map[ast.Node]Point
-	parent  map[ast.Node]ast.Node
-	preds   [][]Edge
-	defs    []*Def
-	defsAt  map[ast.Node][]*Def // defining statement -> defs
-	in      []map[*types.Var]map[int]bool
-	assigned map[*types.Var]bool // assigned after declaration (or address taken)
+	Fn        *Fn
+	CFG       *cfg.CFG
+	Blocks    []*cfg.Block
+	where     map[ast.Node]Point
+	parent    map[ast.Node]ast.Node
+	preds     [][]Edge
+	defs      []*Def
+	defsAt    map[ast.Node][]*Def // defining statement -> defs
+	in        []map[*types.Var]map[int]bool
+	assigned  map[*types.Var]bool // assigned after declaration (or address taken)
 	addrTaken map[*types.Var]bool
-	Returns []*ast.ReturnStmt
-	Defers  []*ast.DeferStmt
+	Returns   []*ast.ReturnStmt
+	Defers    []*ast.DeferStmt
 	condEdges []CondEdge
-	flags     []*types.Var          // bool locals only ever assigned constants
+	flags     []*types.Var // bool locals only ever assigned constants
 	flagIdx   map[*types.Var]int
 }
 
